@@ -767,7 +767,12 @@ func (fr *frame) callsiteObls(b *ssa.BasicBlock, st *state, ins ssa.Instruction,
 		if cl.Kind != "callsite" || cl.Target != short || cl.Loop != n {
 			continue
 		}
+		vc.matchedSites[cl] = true
 		tr := fr.loopTrans(&loopInfo{header: b, body: map[*ssa.BasicBlock]bool{}}, st, nil)
+		// the actual arguments of the call: arg0, arg1, ... (the receiver of a method call is arg0)
+		for i, a := range callArgs(call) {
+			tr.vars[fmt.Sprintf("arg%d", i)] = tvar{fr.val(a), vtype{vc.c.sortOf(a.Type()), a.Type()}}
+		}
 		f := vc.trClause(tr, cl)
 		vc.addObl(&obligation{Name: fmt.Sprintf("callsite/%s@%s#%d", cl.Label, short, n), Kind: "ensures", Label: cl.Label, Goal: and(fr.cond[b], not(f)),
 			Pos: vc.pos(ins.Pos()), Clause: cl.Src, Props: propsOfLabel(cl.Label, vc.props), Inputs: vc.inputTerms()})
